@@ -10,7 +10,7 @@
    Layer 3 (no cycles): FALSE as a global statement (ddSMT's FAQ says no global
    ranking exists); it is searched, not proved: see the check's cycle search. *)
 From Coq Require Import Wellfounded.
-From DD Require Import Model.SchedHier Props.SchedHierProps Props.C11 Props.C12.
+From DD Require Import Model.SchedHier Props.SchedHierProps Props.C11 Props.C12 Model.SchedDdmin Props.SchedDdminProps.
 
 Theorem c03_no_infinite_run : ltac:(let t := type of no_infinite_run in exact t).
 Proof. exact no_infinite_run. Qed.
@@ -23,6 +23,15 @@ Print Assumptions c03_sweep_progress.
 Theorem c03_adoptions_bounded : ltac:(let t := type of adoptions_bounded in exact t).
 Proof. exact adoptions_bounded. Qed.
 Print Assumptions c03_adoptions_bounded.
+
+(* the ddmin checking loop is index-bound: it terminates for EVERY command and candidate function *)
+Theorem c03_ddmin_no_infinite_run : ltac:(let t := type of d_no_infinite_run in exact t).
+Proof. exact d_no_infinite_run. Qed.
+Print Assumptions c03_ddmin_no_infinite_run.
+
+Theorem c03_ddmin_adoptions_bounded : ltac:(let t := type of d_round_progress in exact t).
+Proof. exact d_round_progress. Qed.
+Print Assumptions c03_ddmin_adoptions_bounded.
 
 Theorem c03_substitute_terminates : ltac:(let t := type of subst_refines in exact t).
 Proof. exact subst_refines. Qed.
